@@ -560,6 +560,18 @@ func (w *vfXWorld) op(st vfStep, ev map[string]any) {
 			}
 			w.groups = append(w.groups, &vfXGroup{"mm", gc.Group()})
 		}
+	case "foreign":
+		// a second writer (another member's device) appends to the group and its heads reach this node: the log
+		// then has several heads until the account writes again
+		g := w.group(st.D)
+		src := w.srcGC(st.D)
+		if g == nil || src == nil {
+			ev["skip"] = true
+			return
+		}
+		err = w.foreignWrite(g.g, src, st.X)
+		ev["mheads"] = len(src.MetadataStore().OpLog().Heads().Slice())
+		ev["gheads"] = len(src.MessageStore().OpLog().Heads().Slice())
 	case "msg", "meta":
 		g := w.group(st.D)
 		if g == nil || w.srcGC(st.D) == nil {
